@@ -434,6 +434,36 @@ func genParse(ctx *core.Ctx) {
 			}
 		}
 	}
+	// 3b. a descriptor is the WHOLE spec: every predefined descriptor and "@every <d>" followed by
+	// further words (fields, numbers, a second descriptor, a second duration), with every kind of
+	// separator, with and without a TZ prefix; and the descriptor as a PREFIX of a longer word
+	knownDescr := []string{"@yearly", "@annually", "@monthly", "@weekly", "@daily", "@midnight", "@hourly",
+		"@every 1h", "@every 90s", "@every 1.5s"}
+	trailing := []string{"*", "5", "* * * * *", "5 * * * *", "Mon", "15", "@daily", "@monthly", "30m", "1h", "x", "@", "0"}
+	for _, o := range allSets {
+		for _, d := range knownDescr {
+			for _, tw := range trailing {
+				if !(ctx.Thorough || o.Std || r.Chance(1, 6)) {
+					continue
+				}
+				sep := []string{" ", "  ", "\t", "\n", "\u00a0", "\u3000"}[r.Intn(6)]
+				spec := d + sep + tw
+				if r.Chance(1, 4) {
+					spec = tzPrefixes[r.Intn(5)] + spec
+				}
+				add(o, spec)
+				ctx.Sink.Count("parse/descriptor-with-trailing-words")
+			}
+			if ctx.Thorough || o.Std || r.Chance(1, 3) {
+				add(o, d+"x")
+				add(o, d+"5")
+				add(o, strings.ToUpper(d))
+				add(o, "TZ=UTC "+d)
+				add(o, "CRON_TZ=Asia/Kolkata  "+d+" ")
+				ctx.Sink.Count("parse/descriptor-variants")
+			}
+		}
+	}
 	// 4. TZ= / CRON_TZ= prefixes
 	bodies := func(o optSet) []string {
 		return []string{randExpr(r, o.Opts, true), randExpr(r, o.Opts, false), "@daily", "@every 90s", "@nope", "", "*"}
@@ -471,6 +501,9 @@ func genParse(ctx *core.Ctx) {
 		switch r.Intn(6) {
 		case 0:
 			base = descriptors[r.Intn(7)]
+			if r.Chance(1, 3) {
+				base += " " + []string{"*", "5", "30m", "@hourly", "* * * * *"}[r.Intn(5)]
+			}
 		case 1:
 			base = "@every " + durations[r.Intn(len(durations))]
 		case 2:
